@@ -978,6 +978,15 @@ class Data(object):
         else: #pass on to superclass
             super(Data,self).__setattr__(key,value)
 
+    def __delattr__(self, key):
+        """Convert delattr of a field to pop on self.__dict__ so that the
+           odict's key list stays in step with its items
+        """
+        if key in self.__dict__:
+            self.__dict__.pop(key)
+        else:
+            super(Data,self).__delattr__(key)
+
     def __repr__(self):
         """
         Representation
